@@ -378,3 +378,11 @@ Lemma ex_equidistant :
   pplabel ex_nd 2 = 0%nat /\ pplabel ex_nd 3 = 1%nat /\
   map (pval 0 ex_nd ex_d) (seq 0 5) = [5; 3; 1; 1; 4].
 Proof. vm_compute. repeat split. Qed.
+
+(* the same facts with the definitions written out (statement of Props/C03.v) *)
+Lemma ex_equidistant_props :
+  predict_one Z.ltb 0 ex_nd ex_d = (0%nat, Some 2%nat) /\
+  predict_one_full Z.ltb 0 ex_nd ex_d = (0%nat, Some 2%nat) /\
+  map (fun q => Z.max (nth q (n_cost ex_nd) 0) (ex_d q)) (seq 0 5) = [5; 3; 1; 1; 4] /\
+  nth 2 (n_plabel ex_nd) 0%nat = 0%nat /\ nth 3 (n_plabel ex_nd) 0%nat = 1%nat.
+Proof. vm_compute. repeat split. Qed.
